@@ -172,9 +172,11 @@ def explore_velocity(case):
     pws = [np.zeros(3), np.array([-40.0, 25.0, 7.0])]
     if tier == "thorough":
         items = list(itertools.product(range(4), (-1.0, 1.0), (0.01, 5.0), range(2), (0.0, 1.0)))
-        items0 = list(itertools.product(range(4), (-1.0, 0.0, 1.0), (0.01, 0.5, 5.0, 10.0), range(2), (0.0, 1.0)))
+        items0 = list(itertools.product(range(4), (-1.0, 0.0, 1.0), (0.01, 0.5, 5.0, 10.0), range(2), (0.0, 1.0, 2.0, -1.0)))
     else:
-        items0 = items = list(itertools.product(range(4), (-1.0, 0.0, 1.0), (0.01, 0.5, 5.0, 10.0), range(2), (0.0, 1.0)))
+        # the reset flag is a number: any non-zero value asks for a reset (2.0 and -1.0 besides 1.0 at the first step of every word)
+        items = list(itertools.product(range(4), (-1.0, 0.0, 1.0), (0.01, 0.5, 5.0, 10.0), range(2), (0.0, 1.0)))
+        items0 = list(itertools.product(range(4), (-1.0, 0.0, 1.0), (0.01, 0.5, 5.0, 10.0), range(2), (0.0, 1.0, 2.0, -1.0)))
     start = (0.3, np.array([0.5, 0.0, 1.0]))
     seen = {key_of(np.concatenate([[start[0]], start[1]]))}
     fr = deque([(start, 0, ())])
@@ -211,7 +213,7 @@ def explore_velocity(case):
             dist = float(np.linalg.norm(pw1 - pw))
             if dist > 2.0 + 1e-9 * (1 + maxabs(pw)):
                 res.fail(site="input_velocity", clause="position_setpoint_within_2m_of_vehicle", cls="reset=%d" % int(reset), detail=dict(info, pw_sp1=pw1, distance=dist), sub="velocity", case=case)
-            if reset and maxabs(pw1 - pw) != 0:
+            if reset != 0 and maxabs(pw1 - pw) != 0:
                 res.fail(site="input_velocity", clause="reset_puts_setpoint_on_vehicle", cls="reset=1", detail=dict(info, pw_sp1=pw1), sub="velocity", case=case)
             if abs(np.linalg.norm(q) - 1) > 1e-9 or ref.rot_dist(ref.R_from_quat(q), ref.Rz(psi1)) > 1e-9:
                 res.fail(site="input_velocity", clause="unit_quaternion_with_yaw_setpoint", cls="-", detail=dict(info, q_sp=q, psi_sp1=psi1), sub="velocity", case=case)
@@ -398,7 +400,7 @@ class _V:
     chunks = 2
 
     def cases(self, tier, seed):
-        return [dict(sub="velocity", tier=tier, first=i) for i in range(4 * 3 * 4 * 2 * 2)]
+        return [dict(sub="velocity", tier=tier, first=i) for i in range(4 * 3 * 4 * 2 * 4)]
 
     def run(self, case):
         return explore_velocity(case)
@@ -424,6 +426,77 @@ class _A:
         return explore_attitude(case)
 
 
+def explore_tables(case):
+    """the derived tables as objects: (1) every output that is fed back as the next step's state is stored densely (a structurally empty
+    output is never written by the generated C, so the caller's state variable would keep stale data); (2) a table obtained from a
+    derive_* call keeps its functions when the same derive_* function is called again with other module constants (each call returns its
+    own table)"""
+    from .. import order
+    res = core.Result()
+    M = mods()
+    rdd2, ll = M["rdd2"], M["ll"]
+    fed_back = {"attitude_rate_control": ["i1", "e1", "de1"], "position_control": ["z_i_2"], "input_velocity": ["psi_sp1", "pw_sp1"], "se23_position_control": ["z_i_2"],
+                "strapdown_ins_propagate": ["x1"]}
+    derives = [(rdd2, n) for n in sorted(dir(rdd2)) if n.startswith("derive_")] + [(ll, n) for n in sorted(dir(ll)) if n.startswith("derive_")]
+    for mod, dn in derives:
+        res.count("evaluations")
+        res.nontrivial.add(hash((mod.__name__, dn)))
+        res.nontrivial.add(hash((mod.__name__, dn, 1)))
+        with contextlib.redirect_stdout(io.StringIO()):
+            try:
+                t1 = getattr(mod, dn)()
+            except Exception:
+                continue
+            if not isinstance(t1, dict):
+                continue
+            before = {}
+            for k, f in t1.items():
+                if isinstance(f, ca.Function):
+                    before[k] = [np.array(ca.densify(o), dtype=float) for o in f.call([ca.DM(a) for a in order._fn_inputs(f, 0)])]
+                    for oname in fed_back.get(f.name(), []):
+                        names = [f.name_out(i) for i in range(f.n_out())]
+                        if oname in names:
+                            i = names.index(oname)
+                            if f.nnz_out(i) != f.size1_out(i) * f.size2_out(i):
+                                res.fail(site=f.name(), clause="fed_back_state_output_is_stored_densely", cls=oname, detail=dict(output=oname, nnz=int(f.nnz_out(i)), numel=int(f.size1_out(i) * f.size2_out(i))),
+                                         sub="tables", case=case)
+            saved = {}
+            try:
+                for cn, cv in (("rollpitch_rate_max", 200), ("yaw_rate_max", 150), ("rollpitch_max", 55), ("m", 0.9), ("kp_pos", 3.0), ("z_integral_max", 4.0)):
+                    if hasattr(mod, cn):
+                        saved[cn] = getattr(mod, cn)
+                        setattr(mod, cn, cv)
+                t2 = getattr(mod, dn)()
+            finally:
+                for cn, cv in saved.items():
+                    setattr(mod, cn, cv)
+            res.count("evaluations")
+            for k, f in t1.items():
+                if isinstance(f, ca.Function) and k in before:
+                    after = [np.array(ca.densify(o), dtype=float) for o in f.call([ca.DM(a) for a in order._fn_inputs(f, 0)])]
+                    same = len(after) == len(before[k]) and all(a.shape == b.shape and np.array_equal(np.nan_to_num(a), np.nan_to_num(b)) for a, b in zip(after, before[k]))
+                    if not same:
+                        res.fail(site=mod.__name__.split(".")[-1] + "." + dn, clause="derived_table_keeps_its_functions_when_derived_again", cls=k,
+                                 detail=dict(function=k, same_table_object=bool(t1 is t2)), sub="tables", case=case)
+                        break
+    _M.clear()
+    res.count("states", len(derives))
+    res.count("transitions", len(derives))
+    res.outcomes.add(len(derives))
+    res.samples.append(dict(derive_functions=len(derives)))
+    return res
+
+
+class _Tab:
+    chunks = 1
+
+    def cases(self, tier, seed):
+        return [dict(sub="tables", tier=tier, seed=seed)]
+
+    def run(self, case):
+        return explore_tables(case)
+
+
 # module constants a user may set before deriving (lighter vehicle, other planet, enabled height integrator, other limits)
 OVERRIDES = [dict(rdd2=dict(m=0.8, g=3.7, z_integral_max=5.0, kp_pos=2.5), ll=dict(m=0.8, g=3.7, z_integral_max=5.0)),
              dict(rdd2=dict(m=12, g=9.8, z_integral_max=2, rollpitch_max=35, yaw_rate_max=120), ll=dict(m=12, z_integral_max=2))]  # integer-valued
@@ -446,9 +519,9 @@ class _Ov:
         return r
 
 
-SUBCHECKS = {"rate": _Rate(), "zint": _Z(), "velocity": _V(), "sticks": _St(), "attitude": _A(), "overrides": _Ov()}
+SUBCHECKS = {"rate": _Rate(), "zint": _Z(), "velocity": _V(), "sticks": _St(), "attitude": _A(), "overrides": _Ov(), "tables": _Tab()}
 REPLAY = {"rate": lambda c: explore_rate(c).fails, "zint": lambda c: explore_zint(c).fails, "velocity": lambda c: explore_velocity(c).fails,
-          "sticks": lambda c: explore_sticks(c).fails, "attitude": lambda c: explore_attitude(c).fails, "overrides": lambda c: _Ov().run(c).fails}
+          "sticks": lambda c: explore_sticks(c).fails, "attitude": lambda c: explore_attitude(c).fails, "overrides": lambda c: _Ov().run(c).fails, "tables": lambda c: explore_tables(c).fails}
 
 # results must not depend on which library calls were made earlier in the process (see mc/order.py)
 from .. import order as _order  # noqa: E402
